@@ -68,3 +68,8 @@ func shapeStr(s []int) string {
 }
 
 func isQuick(r *core.Run) bool { return r.Tier != "thorough" }
+
+// propPfx is prepended to case ids by the shared generators when another property (C16) re-runs them;
+// lenient makes every refusal acceptable (C16: "or refuses").
+var propPfx string
+var lenient bool
